@@ -41,7 +41,7 @@ def max_instances():
             if v == "2.1":
                 args["confidence"] = 0
                 args["lang"] = "en"
-            known = getattr(O.module(v), cls)._properties
+            known = _cls(v, cls)._properties
             args = {k: x for k, x in args.items() if k in known}        # (the meta objects -- language content, extension definition -- lack some of the common properties)
             out.append(("%s %s" % (v, typ), v, cls, args))
     # a 2.1 observable with a nested extension, a dictionary property and zero-valued properties
@@ -70,9 +70,35 @@ def max_instances():
                                                                                       "contents": {"en-gb": txt, "en-us": txt, "fr": {"name": "m"}}}))
     out.append(("2.1 identity(shared custom containers)", "2.1", "Identity", {"name": "n", "allow_custom": True, "x_a": shared_list, "x_b": shared_list, "x_c": {"p": shared_list, "q": txt, "r": txt}}))
     out.append(("2.1 email-message(shared header lists)", "2.1", "EmailMessage", {"is_multipart": False, "additional_header_fields": {"x-one": shared_list, "x-two": shared_list}}))
+    own = own_extension_types()
+    out.append(("2.1 x-verif-sel(custom type with an extension of its own)", "2.1", own["obj"], {"name": "n", "note": ""}))
+    out.append(("2.1 x-verif-sel-obs(custom observable with an extension of its own)", "2.1", own["obs"], {"value": "v"}))
     # a list longer than ten elements (index order is not string order) on a versionable object
     out.append(("2.1 identity(long list)", "2.1", "Identity", {"name": "n", "labels": ["l%d" % (i % 5) for i in range(13)], "sectors": ["aerospace"] * 11}))
     return out
+
+
+_OWN = {}
+
+
+def own_extension_types():
+    """custom types that bring an extension of their own (extension_name=...): the library adds their `extensions` property itself"""
+    import stix2
+    from stix2.properties import StringProperty
+    if not _OWN:
+        @stix2.v21.CustomObject("x-verif-sel", [("name", StringProperty(required=True)), ("note", StringProperty())], extension_name="extension-definition--88888888-1111-4111-8111-111111111111")
+        class XSel(object):
+            pass
+
+        @stix2.v21.CustomObservable("x-verif-sel-obs", [("value", StringProperty(required=True))], ["value"], extension_name="extension-definition--88888888-2222-4222-8222-222222222222")
+        class XSelObs(object):
+            pass
+        _OWN.update(obj=XSel, obs=XSelObs)
+    return _OWN
+
+
+def _cls(v, cls):
+    return cls if not isinstance(cls, str) else getattr(O.module(v), cls)
 
 
 ENTRIES_MUT = ["add", "set", "clear", "remove"]
@@ -82,12 +108,13 @@ ENTRIES_Q = ["get", "is_marked", "is_marked_any"]
 def construct_line(tid, v, cls, args, steps, entry):
     """selector handed over inside granular_markings at construction / parse time"""
     mod = O.module(v)
-    base = getattr(mod, cls)(**copy.deepcopy(args))
+    base = _cls(v, cls)(**copy.deepcopy(args))
     plain = O.plain(dict(base))
-    gm = [{"selectors": [IM.sel(steps)], "marking_ref": M1}]
+    gm = list(copy.deepcopy(args.get("granular_markings", []))) + [{"selectors": [IM.sel(steps)], "marking_ref": M1}]      # (a host that arrives marked keeps the marking it has)
+    args = {k: x for k, x in args.items() if k != "granular_markings"}
     try:
         if entry == "construct":
-            obj = getattr(mod, cls)(granular_markings=gm, **copy.deepcopy(args))
+            obj = _cls(v, cls)(granular_markings=gm, **copy.deepcopy(args))
         else:
             import stix2
             d = json.loads(base.serialize())
@@ -119,9 +146,18 @@ def run(chk):
     out_file = os.path.join(chk.scratch, "cands.json")
     insts = max_instances()
     hosts = []
-    for name, v, cls, args in insts:
-        obj = getattr(O.module(v), cls)(**copy.deepcopy(args))
+    for hi, (name, v, cls, args) in enumerate(insts):
+        obj = _cls(v, cls)(**copy.deepcopy(args))
         hosts.append((name, v, cls, args, obj, IM.tree_of(O.plain(dict(obj)))))
+        # the same content arriving already marked (the constructor has validated a selector on the instance before any marking function sees it): the custom types and every sixth host
+        if "granular_markings" in _cls(v, cls)._properties and "granular_markings" not in args and (not isinstance(cls, str) or hi % 6 == 0):
+            first = [k for k in args if k not in ("allow_custom", "extensions")][0]
+            args2 = dict(copy.deepcopy(args), granular_markings=[{"selectors": [first], "marking_ref": IM.MARK["M3"]}])
+            try:
+                obj2 = _cls(v, cls)(**copy.deepcopy(args2))
+            except Exception:  # noqa  (a host that cannot arrive marked is no case)
+                continue
+            hosts.append((name + " (arrives marked)", v, cls, args2, obj2, IM.tree_of(O.plain(dict(obj2)))))
     tlc.write_ndjson(trees_file, [{"tree": h[5]} for h in hosts])
     res = chk.add_tlc("S1_selectors_and_candidates", tlc.run("MC_Selectors", "MC_Selectors", workers=1, env={"TREES_FILE": trees_file, "OUT_FILE": out_file}, scratch=chk.scratch))
     if not res.completed:
@@ -152,7 +188,7 @@ def run(chk):
                 line["host"], line["hostkind"], line["stage"], line["spec_ok"] = name, name, "S2", ok
                 lines.append(line)
             for entry in ("construct", "parse"):
-                if quick and rng.random() < 0.5:
+                if (quick and rng.random() < 0.5) or "(arrives marked)" in name:
                     continue
                 line = construct_line(tid, v, cls, args, steps, entry)
                 line["host"], line["hostkind"], line["stage"], line["spec_ok"] = name, name, "S2", ok
